@@ -6,8 +6,8 @@ from props.c10 import _addr
 import refbech32
 
 PID = "C11"
-THEOREMS = ['C11_convertbits_roundtrip', 'C11_polymod_linear', 'C11_checksum_verifies', 'C11_decode_encode', 'C11_segwit_roundtrip', 'C11_objects', 'C11_objects_total']
-TECHNIQUE = "Coq proof (bit-regrouping round-trip, XOR-linearity of the checksum step, created checksum verifies, decode(encode) for every program and HRP) + extracted-model correspondence with an independent BIP173/BIP350 reference and rejection streams"
+THEOREMS = ['C11_convertbits_roundtrip', 'C11_polymod_linear', 'C11_checksum_verifies', 'C11_detects_4_substitutions', 'C11_distance_tight', 'C11_decode_encode', 'C11_segwit_roundtrip', 'C11_objects', 'C11_objects_total']
+TECHNIQUE = "Coq proof (bit-regrouping round-trip, XOR-linearity of the checksum step, created checksum verifies, 1..4 substituted symbols in a data part of up to 89 symbols are always detected, decode(encode) for every program and HRP) + extracted-model correspondence with an independent BIP173/BIP350 reference and rejection streams"
 RULE = ("20- and 32-byte programs, versions 0 and 1, four networks, each of P2WPKH/P2WSH/P2TR re-created from its own string and program; the same "
         "program encoded under every network in sequence in one process; rejection: 1..4 substituted characters sampled over positions and symbols "
         "(incl. each of the six checksum positions), case flips, other-network prefix, bech32<->bech32m checksum swap, truncation/extension, wrong "
@@ -16,10 +16,12 @@ RULE = ("20- and 32-byte programs, versions 0 and 1, four networks, each of P2WP
 LEVEL_TEXT = ("Coq theorems for every program and HRP: 8->5->8 regrouping round-trips, the checksum step is XOR-linear and a created checksum "
               "verifies as its own variant, decoding an encoded string returns HRP, data and variant, segwit encode/decode round-trip for v0 "
               "(20/32 bytes, bech32) and v1..16 (bech32m), and the three address objects re-create an identical program from their own string. "
-              "Rejection of up to four substituted characters is covered by the sampled rejection stream against an independent BIP173 "
-              "reference (the distance-5 property of the code is not proved here). Tied to the code by differential runs.")
-LEVEL_NOTE = ("Trusted: Coq kernel; extraction; model tied by correspondence; independent reference refbech32.py. Partial: error detection for 1..4 "
-              "substitutions rests on the correspondence with the reference decoder over sampled corruptions, not on a theorem.")
+              "Rejection of up to four substituted characters is a theorem too: for every prefix and every data part of up to 89 symbols, 1..4 "
+              "substituted symbols never verify as the same variant (reduction by linearity and shift invariance to one closed kernel "
+              "computation; the bound is shown tight at 90). Tied to the code by differential runs against an independent BIP173/BIP350 reference.")
+LEVEL_NOTE = ("Trusted: Coq kernel (one vm_compute of about 15 s in Proofs/Bech32Distance.v); extraction; model tied by correspondence; "
+              "independent reference refbech32.py. The detection theorem is about the same checksum variant; a substitution that changes the "
+              "witness version can reach a valid string of the other variant (BIP350), which the decoders then accept as what it is.")
 HRP = {"mainnet": "bc", "testnet": "tb", "regtest": "bcrt", "signet": "tb"}
 TY = {"p2wpkh": (0, 20), "p2wsh": (0, 32), "p2tr": (1, 32)}
 
@@ -77,6 +79,30 @@ def cases(tier, rng):
         else:
             s = a
         yield {"k": "dec", "net": net, "ty": ty, "s": s}
+    # deterministic boundary stream: a well-formed checksum (of either variant) over every combination of witness
+    # version and program length around the limits 16 / 2 / 20 / 32 / 40
+    for net in (("mainnet", "testnet") if tier == "quick" else NETS):
+        for v in (0, 1, 2, 15, 16, 17, 31):
+            for ln in (1, 2, 19, 20, 21, 31, 32, 33, 39, 40, 41):
+                for const in (1, refbech32.M):
+                    prog = bytes(rng.getrandbits(8) for _ in range(ln))
+                    s_ = refbech32.raw_encode(HRP[net], [v] + refbech32.to5(prog), const)
+                    for ty in (list(TY) if v in (0, 1) else [rng.choice(list(TY))]):
+                        yield {"k": "dec", "net": net, "ty": ty, "s": s_}
+    # the bech32 predicate on well-formed checksums around the string-level limits: total length 89/90/91, a data
+    # part that is only the checksum, one-character and boundary-character prefixes, upper case, mixed case
+    for const in (1, refbech32.M):
+        for hrp, n5 in (("bc", 80), ("bc", 81), ("bc", 82), ("a", 0), ("a", 1), ("a", 82), ("a", 83), ("!", 3), ("~", 3), ("!~x", 3),
+                        ("bcrt", 78), ("bcrt", 79), ("bcrt", 80), ("tb", 0), ("1", 3), ("a1b", 3), ("11", 0)):
+            d5 = [rng.randrange(32) for _ in range(n5)]
+            s_ = refbech32.raw_encode(hrp, d5, const)
+            yield {"k": "pred", "s": s_, "exp": None}
+            yield {"k": "pred", "s": s_.upper(), "exp": None}
+            yield {"k": "pred", "s": s_[:1].upper() + s_[1:], "exp": None}
+            yield {"k": "pred", "s": s_[:-1], "exp": None}
+        for bad in (" ", "\x7f", "\x1f", "\u00e9"):
+            s_ = refbech32.raw_encode("b" + bad + "c", [1, 2, 3], const)
+            yield {"k": "pred", "s": s_, "exp": None}
     for _ in range(60 if tier == "quick" else 2000):
         net = rng.choice(NETS)
         yield {"k": "pred", "s": _addr(rng.choice(["p2pkh", "p2sh"]), net, bytes(rng.getrandbits(8) for _ in range(20))), "exp": 0}
@@ -110,7 +136,11 @@ def impl(d):
         return "|".join(out)
     if k == "dec":
         setup(d["net"])
-        return _cls(d["ty"])(address=d["s"]).to_witness_program()
+        a = _cls(d["ty"])(address=d["s"])   # acceptance is the constructor returning
+        try:
+            return a.to_witness_program()
+        except Exception as e:
+            return "ACCEPTED_BUT_NO_PROGRAM:" + type(e).__name__
     if k == "pred":
         return "%d" % is_address_bech32(d["s"])
 
